@@ -1,11 +1,179 @@
 /-
   C15 — The Cython common module is observationally equivalent to the Python one.
--/
-import PyModeS.Model.Common
-namespace PyModeS.C15
 
-/-- placeholder theorem replaced below by the C-model equivalences -/
+  `PyModeS.C.*` (Model/CCommon.lean) is the C-semantics twin of src/pyModeS/c_common.pyx: `long` is
+  64-bit two's complement, `int` 32-bit, `unsigned char` 8-bit, integer sentinels instead of `None`.
+  `PyModeS.*` (Model/Common.lean) is py_common.py.  Well-formed input = hex strings (`IsHex`: every
+  character is one of 0-9 a-f A-F); most statements are proved on the larger class of ASCII strings
+  (`IsAscii`, one byte per character under `str.encode()`), where a non-hex character counts as 0 in
+  both modules.  `RuntimeError` is `Res.rte`; the C results of `altitude`/`altcode` are compared
+  through the documented sentinel map `C.altOfSentinel` (−999999, −1 ↦ `None`), the C type code
+  through `C.tcOfSentinel` (−1 ↦ `None`).
+
+  Proofs: PyModeS/Proofs/CCommon/Basic.lean, Alt.lean (structural, no enumeration of the 8192 codes).
+-/
+import PyModeS.Proofs.CCommon.Basic
+import PyModeS.Proofs.CCommon.Alt
+import PyModeS.Properties.C07
+namespace PyModeS.C15
+open PyModeS PyModeS.CRC PyModeS.CC
+
+/-- kept from the first version: a legal 100-ft altitude is never a sentinel -/
 theorem sentinel_is_not_an_altitude : ∀ k : Nat, k < 1280 → ((k : Int) * 100 - 1200 ≠ -1 ∧ (k : Int) * 100 - 1200 ≠ -999999) := by
   intro k hk; omega
+
+/-- a concrete DF17 frame, a DF4 and a DF5 reply used in the examples below -/
+def exAdsb : Msg := "8D406B902015A678D4D220AA4BDA".toList
+def exDf4 : Msg := "2000171806A983".toList
+def exDf5 : Msg := "2A00516D492B80".toList
+def exDf20 : Msg := "A0001838CA3E51F0A8000047A36A".toList
+
+theorem exAdsb_hex : IsHex exAdsb := by unfold IsHex exAdsb; decide
+theorem exDf4_hex : IsHex exDf4 := by unfold IsHex exDf4; decide
+theorem exDf5_hex : IsHex exDf5 := by unfold IsHex exDf5; decide
+theorem exDf20_hex : IsHex exDf20 := by unfold IsHex exDf20; decide
+
+/-! ## 1. characters and `hex2bin` -/
+
+/-- `char_to_int(c) = int(c, 16)` on hex digits -/
+theorem charToInt_eq_hexVal : ∀ c, (hexVal? c).isSome → C.charToInt c = hexVal c := CC.charToInt_eq_hexVal
+
+/-- …and on every one-byte character (0 on a non-hex one, in both modules) -/
+theorem charToInt_eq_of_byte : ∀ c : Char, c.toNat < 256 → C.charToInt c = hexVal c := CC.charToInt_eq_of_lt
+
+theorem charToInt_nonhex : ∀ c : Char, c.toNat < 128 → hexVal? c = none → C.charToInt c = 0 ∧ hexVal c = 0 :=
+  CC.charToInt_nonhex
+
+/-- `hex2bin`: the same bit string for every hex string -/
+theorem c_hex2bin_eq (m : Msg) (h : IsHex m) : C.hex2bin m = hex2binM m := CC.c_hex2bin_eq m h
+
+/-- …and for every ASCII string -/
+theorem c_hex2bin_eq_of_ascii (m : Msg) (h : IsAscii m) : C.hex2bin m = hex2binM m := CC.c_hex2bin_eq_of_ascii m h
+
+/-- NOT for all strings: the model reduces a code point mod 256 (`unsigned char`), so U+0131 reads as '1' -/
+theorem c_hex2bin_not_for_all : ∃ m : Msg, C.hex2bin m ≠ hex2binM m := ⟨_, CC.c_hex2bin_ne_example⟩
+
+example : C.hex2bin exAdsb = hex2binM exAdsb := c_hex2bin_eq _ exAdsb_hex
+example : (C.hex2bin exAdsb).length = 112 := by decide
+
+/-! ## 2. `bin2int`, `hex2int` -/
+
+/-- general statement: the C `long` is the Python integer reduced to signed 64 bits -/
+theorem c_bin2int_wrap (b : Bits) : C.bin2int b = C.wrap64 (bin2int b : Int) := CC.c_bin2int_wrap b
+
+/-- no 64-bit wrap below 63 bits (as requested) … -/
+theorem c_bin2int_eq (b : Bits) (h : b.length ≤ 62) : C.bin2int b = (bin2int b : Int) := CC.c_bin2int_eq b h
+
+/-- … in fact up to and including 63 bits; 64 ones already give −1 (`c_bin2int_wraps_example`) -/
+theorem c_bin2int_eq_63 (b : Bits) (h : b.length ≤ 63) : C.bin2int b = (bin2int b : Int) := CC.c_bin2int_eq' b h
+
+theorem c_bin2int_wraps_at_64 :
+    C.bin2int (List.replicate 64 true) = -1 ∧ bin2int (List.replicate 64 true) = 18446744073709551615 :=
+  CC.c_bin2int_wraps_example
+
+theorem c_hex2int_wrap (m : Msg) (h : IsHex m) : C.hex2int m = C.wrap64 (hexToNatM m : Int) :=
+  CC.c_hex2int_wrap m (isAscii_of_isHex h)
+
+/-- `hex2int`: exact up to 15 hex digits -/
+theorem c_hex2int_eq (m : Msg) (h : IsHex m) (hl : m.length ≤ 15) : C.hex2int m = (hexToNatM m : Int) :=
+  CC.c_hex2int_eq m h hl
+
+example : C.bin2int (natToBits 56 0xA5A5A5A5A5A5A5) = (0xA5A5A5A5A5A5A5 : Int) := by decide +kernel
+example : C.hex2int "4BDA01".toList = (hexToNatM "4BDA01".toList : Int) :=
+  c_hex2int_eq _ (by unfold IsHex; decide) (by decide)
+
+/-! ## 3. `df`, `typecode` -/
+
+theorem c_df_eq (m : Msg) (h : IsHex m) : C.df m = df m := CC.c_df_eq m h
+theorem c_df_eq_of_ascii (m : Msg) (h : IsAscii m) : C.df m = df m := CC.c_df_eq_of_ascii m h
+
+/-- the C type code read through the sentinel map is the Python type code -/
+theorem c_typecode_eq (m : Msg) (h : IsHex m) : C.tcOfSentinel (C.typecode m) = typecode m := CC.c_typecode_eq m h
+
+/-- −1 exactly where Python returns `None` -/
+theorem c_typecode_none_iff (m : Msg) (h : IsHex m) : C.typecode m = -1 ↔ typecode m = none :=
+  CC.c_typecode_none_iff m h
+
+/-- and the same number otherwise -/
+theorem c_typecode_val (m : Msg) (h : IsHex m) :
+    C.typecode m = match typecode m with | some t => (t : Int) | none => -1 :=
+  CC.c_typecode_val m (isAscii_of_isHex h)
+
+example : C.df exAdsb = 17 ∧ df exAdsb = 17 := by decide
+example : C.typecode exAdsb = 4 ∧ typecode exAdsb = some 4 := by decide
+example : C.typecode exDf4 = -1 ∧ typecode exDf4 = none := by decide
+
+/-! ## 4. `crc`, `icao` -/
+
+/-- same CRC remainder (both `encode` values) on whole-byte hex strings; `6 ≤ m.length` is not used -/
+theorem c_crc_eq (m : Msg) (e : Bool) (h : IsHex m) (h2 : m.length % 2 = 0) (h6 : 6 ≤ m.length) :
+    C.crc m e = (crc m e : Int) := CC.c_crc_eq m e h h2 h6
+
+theorem c_crc_eq' (m : Msg) (e : Bool) (h : IsAscii m) (h2 : m.length % 2 = 0) :
+    C.crc m e = (crc m e : Int) := CC.c_crc_eq_of_ascii m e h h2
+
+theorem c_icao_eq (m : Msg) (h : IsHex m) (h2 : m.length % 2 = 0) (h6 : 6 ≤ m.length) : C.icao m = icao m :=
+  CC.c_icao_eq m h h2 h6
+
+example : C.crc exAdsb false = (crc exAdsb false : Int) := c_crc_eq _ _ exAdsb_hex (by decide) (by decide)
+example : C.icao exDf4 = icao exDf4 := c_icao_eq _ exDf4_hex (by decide) (by decide)
+
+/-! ## 5. `squawk` -/
+
+/-- for every bit string: the same four digits, `RuntimeError` unless it has 13 bits -/
+theorem c_squawk_eq (b : Bits) : C.squawk b = squawk b := CC.c_squawk_eq b
+
+theorem c_squawk_rte (b : Bits) (h : b.length ≠ 13) : C.squawk b = .rte ∧ squawk b = .rte := by
+  have : squawk b = .rte := by
+    unfold squawk
+    split
+    · simp at h
+    · rfl
+  exact ⟨by rw [c_squawk_eq, this], this⟩
+
+example : C.squawk (natToBits 13 0x1ABC) = .val [7, 3, 1, 3] := by decide
+
+/-! ## 6. `gray2alt`, `altitude` -/
+
+theorem c_gray2int_eq (b : Bits) (h : b.length ≤ 31) : C.gray2int b = (gray2int b : Int) := CC.c_gray2int_eq b h
+
+/-- `gray2alt` (11-bit Gillham strings, and anything up to 39 bits): −1 ↔ `None`, same value otherwise -/
+theorem c_gray2alt_eq (b : Bits) (h : b.length ≤ 39) :
+    C.gray2alt b = match gray2alt b with | some a => a | none => -1 := CC.c_gray2alt_eq b h
+
+theorem c_gray2alt_sentinel (b : Bits) (h : b.length ≤ 39) : C.altOfSentinel (C.gray2alt b) = gray2alt b :=
+  CC.c_gray2alt_sentinel b h
+
+/-- no decoded Gillham altitude equals a sentinel -/
+theorem gray2alt_ne_sentinel (g : Bits) (a : Int) (h : gray2alt g = some a) : a ≠ -1 ∧ a ≠ -999999 :=
+  CC.gray2alt_ne_sentinel g a h
+
+/-- `altitude`, for EVERY bit string, as `Res` values: `RuntimeError` on the same inputs, and the sentinel
+    map turns the C integer into the Python result -/
+theorem c_altitude_eq (b : Bits) : C.altOfSentinel <$> C.altitude b = altitude13 b := CC.c_altitude_eq b
+
+theorem c_altitude_rte_iff (b : Bits) : C.altitude b = .rte ↔ altitude13 b = .rte := CC.c_altitude_rte_iff b
+
+/-- hence the C altitude meets the Annex 10 specification of C07 through the sentinel map -/
+theorem c_altitude_spec (b : Bits) (h : b.length = 13) :
+    C.altOfSentinel <$> C.altitude b = .val (Spec.alt13 (bin2int b)) := by
+  rw [c_altitude_eq, C07.altitude13_spec b h]
+
+/-- the sentinels are reached: the zero code and an illegal Gillham code -/
+example : C.altitude (natToBits 13 0) = .val (-999999) ∧ altitude13 (natToBits 13 0) = .val none := by decide
+example : C.altitude (natToBits 13 0b0000000000100) = .val (-1) ∧ altitude13 (natToBits 13 0b0000000000100) = .val none := by
+  decide
+example : C.altitude (natToBits 13 0b1100010010011) = .val 38275 := by decide
+example : C.altitude (natToBits 12 5) = .rte := by decide
+
+/-! ## 7. `altcode`, `idcode` on frames -/
+
+theorem c_altcode_eq (m : Msg) (h : IsHex m) : C.altOfSentinel <$> C.altcode m = altcode m := CC.c_altcode_eq m h
+
+theorem c_idcode_eq (m : Msg) (h : IsHex m) : C.idcode m = idcode m := CC.c_idcode_eq m h
+
+example : C.altcode exDf20 = .val 38000 ∧ altcode exDf20 = .val (some 38000) := by decide
+example : C.idcode exDf5 = idcode exDf5 := c_idcode_eq _ exDf5_hex
+example : C.idcode exDf4 = .rte ∧ idcode exDf4 = .rte := by decide
 
 end PyModeS.C15
